@@ -32,7 +32,8 @@ namespace core
 
 //-----------------------------------------------------------------------------
 RateMonitoring::RateMonitoring()
-: windowSize_(0),
+: mutex_(),
+  windowSize_(0),
   lastPeriod_(),
   lastDuration_(Duration::zero()),
   periods_(),
@@ -50,7 +51,8 @@ RateMonitoring::RateMonitoring(const double & expectedRate)
 
 //-----------------------------------------------------------------------------
 RateMonitoring::RateMonitoring(const RateMonitoring & rateMonitoring)
-: windowSize_(rateMonitoring.windowSize_),
+: mutex_(),
+  windowSize_(rateMonitoring.windowSize_),
   lastPeriod_(rateMonitoring.lastPeriod_),
   lastDuration_(rateMonitoring.lastDuration_.load()),
   periods_(rateMonitoring.periods_),
@@ -73,6 +75,7 @@ double RateMonitoring::update(const Duration & duration)
 {
   assert(windowSize_ != 0);
 
+  std::lock_guard<std::mutex> lock(mutex_);
   lastPeriod_ = duration - lastDuration_.load();
   long long int lastPeriodInNanoSecond = durationToNanoSecond(lastPeriod_);
 
@@ -99,6 +102,7 @@ double RateMonitoring::getRate()const
 //-----------------------------------------------------------------------------
 bool RateMonitoring::timeout(const Duration & duration)
 {
+  std::lock_guard<std::mutex> lock(mutex_);
   if (!periods_.empty() &&
     durationToSecond(duration - lastDuration_.load()) > 0.5)
   {
